@@ -30,7 +30,8 @@ VARIABLES active, deact, actfun, deactfun,   \* per level (index l+1): sets of t
           hist                                \* sequence of calls: each a sequence (per level) of sets of cells
 
 vars == <<active, deact, actfun, deactfun, L, hist>>
-View == <<active, deact, actfun, deactfun, L>>
+View == <<active, deact, actfun, deactfun, L, Len(hist)>>   \* the call bound depends on Len(hist): it must be part of the view,
+                                                             \* or a multi-worker (non-strict BFS) run prunes states first reached by a longer history
 
 Levels == 0..(MaxLev - 1)
 PP == <<P1, P2>>
